@@ -359,6 +359,7 @@ func (t *sseClientTransport) handleResponse(data string) {
 		}
 		return
 	}
+	verifEvent("client.resp.found", "legacy", idStr)
 
 	// Parse the raw message.
 	rawMsg := json.RawMessage(data)
